@@ -36,9 +36,26 @@ Definition selector_matches (service method : string) (n : name_sel) : bool :=
 Definition names_method (service method : string) (mc : method_config) : bool :=
   existsb (selector_matches service method) (mc_names mc).
 
-(* next(c for c in methodConfig if selector in c["name"]) *)
-Definition lookup (cfg : list method_config) (service method : string) : option method_config :=
+(* the two dicts that name every method of a service: the service alone, or the service with an empty method *)
+Definition service_wide_matches (service : string) (n : name_sel) : bool :=
+  option_eqb String.eqb (n_service n) (Some service) &&
+  match n_method n with None => true | Some m => is_empty m end.
+
+Definition names_service (service : string) (mc : method_config) : bool :=
+  existsb (service_wide_matches service) (mc_names mc).
+
+(* next(c for c in methodConfig if selector in c["name"]) or next(c for c in methodConfig if any(s in c["name"] ...)):
+   first the entries that name the method exactly, in list order; only when there is none, the entries that name the
+   whole service, in list order *)
+Definition lookup_exact (cfg : list method_config) (service method : string) : option method_config :=
   find (names_method service method) cfg.
+Definition lookup_service (cfg : list method_config) (service : string) : option method_config :=
+  find (names_service service) cfg.
+Definition lookup (cfg : list method_config) (service method : string) : option method_config :=
+  match lookup_exact cfg service method with
+  | Some mc => Some mc
+  | None => lookup_service cfg service
+  end.
 
 (* ------------------------------------------------------------------ _to_float *)
 Definition digit_of (c : ascii) : option Z :=
